@@ -1311,16 +1311,40 @@ def alias_consts(j):
     return alias
 
 
+def _guarded(j, notes, name, fn, default):
+    """Run one normalisation step; if it crashes on an unforeseen MIR shape, put the facts back as they were and go
+    on without it (the rules then see the un-normalised code, which can only make them more conservative)."""
+    keys = ('instances', 'poly', 'adts', 'consts', 'fns', 'roots', 'format_args')
+    snap = {k: copy.deepcopy(j.get(k)) for k in keys}
+    try:
+        return fn()
+    except Exception as ex:   # noqa: BLE001
+        import traceback
+        for k in keys:
+            if snap[k] is not None:
+                j[k] = snap[k]
+        notes.append('%s skipped: %r %s' % (name, ex, traceback.format_exc()[-400:]))
+        return default
+
+
 def inline_unknown(j, known):
     """Mutates facts json j. Returns dict(inlined=[paths], dropped=[paths])."""
     if known is None or j.get('crate') != 'mrecordlog':
         return {'inlined': [], 'dropped': []}
-    consts_aliased = alias_consts(j)
-    n_desugared = desugar_adaptors(j)
-    types_renamed = rename_types_back(j, load_known_adts())
+    notes = []
+    known0 = known
+    consts_aliased = _guarded(j, notes, 'alias_consts', lambda: alias_consts(j), {})
+    n_desugared = _guarded(j, notes, 'desugar_adaptors', lambda: desugar_adaptors(j), 0)
+    types_renamed = _guarded(j, notes, 'rename_types_back', lambda: rename_types_back(j, load_known_adts()), {})
     known, renamed = effective_known(j, known)
-    rename_back(j, renamed)
-    fields_renamed = rename_fields_back(j, load_known_adts())
+    _guarded(j, notes, 'rename_back', lambda: rename_back(j, renamed), None)
+    fields_renamed = _guarded(j, notes, 'rename_fields_back', lambda: rename_fields_back(j, load_known_adts()), {})
+    res = _guarded(j, notes, 'inline_helpers', lambda: _inline_all(j, known), {'inlined': [], 'dropped': []})
+    res.update({'renamed': renamed, 'fields_renamed': fields_renamed, 'types_renamed': types_renamed, 'adaptors_desugared': n_desugared, 'consts_aliased': consts_aliased, 'notes': notes})
+    return res
+
+
+def _inline_all(j, known):
     report = {'inlined': set(), 'dropped': set()}
     # instances: callee.node = id
     inst = j['instances']
@@ -1357,4 +1381,4 @@ def inline_unknown(j, known):
         for b in drop:
             report['dropped'].add(strip_crate(b['path']))
             poly.remove(b)
-    return {'inlined': sorted(report['inlined']), 'dropped': sorted(report['dropped']), 'renamed': renamed, 'fields_renamed': fields_renamed, 'types_renamed': types_renamed, 'adaptors_desugared': n_desugared, 'consts_aliased': consts_aliased}
+    return {'inlined': sorted(report['inlined']), 'dropped': sorted(report['dropped'])}
